@@ -70,3 +70,11 @@ func VerifInstallSymKw() {
 	})
 	d.defineBuiltinStaticMethod("Builtin", "kw", args, *base.MakeAnyInt())
 }
+
+// VerifLoadConfigAgain runs the real loader once more; the harness arranges (virtual file
+// system) that only the extra file is visible, so this adds its declarations to the tables.
+func VerifLoadConfigAgain() {
+	if err := loadBuiltinFromJSON(); err != nil {
+		panic("json loading error!")
+	}
+}
